@@ -46,6 +46,7 @@ func init() {
 
 type c09Cfg struct {
 	auth, prof, met, fail bool
+	empty                 bool   // no token is issued in the fixture: the tokens table is empty
 	over                  string // "U" / "X" / "R": the request is made while a lookup of that token is in flight
 	admin                 string // configured admin token ("" = the default); the literal the operator configured
 	lite                  bool   // (not part of the name) only a small credential matrix is run in this configuration
@@ -64,6 +65,9 @@ func (k c09Cfg) String() string {
 	if k.fail {
 		out += "f"
 	}
+	if k.empty {
+		out += "e"
+	}
 	if k.over != "" {
 		out += "~" + k.over
 	}
@@ -78,7 +82,7 @@ func (k c09Cfg) String() string {
 }
 
 // plain: one of the configurations whose routing table goes into coq/gen/Routes.v
-func (k c09Cfg) plain() bool { return k.over == "" && k.admin == "" }
+func (k c09Cfg) plain() bool { return k.over == "" && k.admin == "" && !k.empty }
 
 // metrics cannot be switched off again in one process (package-level state of /repo/metrics), hence the order
 func c09Configs() []c09Cfg {
@@ -95,6 +99,7 @@ func c09Configs() []c09Cfg {
 		if !m {
 			// overlapping authentications: the request is made while the lookup of another token is held inside
 			// the token repository (the verdict must depend on the request's own token only)
+			out = append(out, c09Cfg{auth: true, empty: true}) // nothing issued yet
 			for _, o := range []string{"U", "X", "R", "sU", "sX", "sR"} {
 				out = append(out, c09Cfg{auth: true, over: o})
 			}
@@ -217,6 +222,18 @@ var c09Creds = []c09Cred{
 	{"=Bearer: $A", "wrong-scheme"}, {"=$A Bearer", "wrong-scheme"},
 }
 
+// c09SQLMeta: credentials made of SQL meta characters (no blank needed): quotes, comment markers, UNION, ';', '--',
+// percent-encoded quotes (decoded nowhere), a NUL byte.  None is a credential, whatever is in the tokens table.
+var c09SQLMeta = []c09Cred{
+	{"=Bearer x'OR'1'='1", "sql-meta"}, {"=Bearer x'UNION/**/SELECT'made-up','2024-01-01", "sql-meta"},
+	{"=Bearer x'UNION/**/SELECT/**/token,created_at/**/FROM/**/tokens--", "sql-meta"},
+	{"=Bearer '", "sql-meta"}, {"=Bearer ''", "sql-meta"}, {"=Bearer $U'--", "sql-meta"}, {"=Bearer $U';--", "sql-meta"},
+	{"=Bearer $X'OR(token)LIKE'%", "sql-meta"}, {"=Bearer x'/*", "sql-meta"}, {"=Bearer x\"OR\"1\"=\"1", "sql-meta"},
+	{"=Bearer %27OR%271%27=%271", "sql-meta"}, {"=Bearer x';DELETE/**/FROM/**/tokens;--", "sql-meta"},
+	{"=Bearer x'OR/**/1=1--", "sql-meta"}, {"=Bearer x\\'OR\\'1\\'=\\'1", "sql-meta"}, {"=Bearer ${rawnul:U}", "sql-meta"},
+	{"=Bearer x'OR'1'='1'/*", "sql-meta"}, {"=Bearer $U'/**/OR/**/'1", "sql-meta"},
+}
+
 type c09Env struct {
 	c          *Ctx
 	k          c09Cfg
@@ -239,6 +256,8 @@ func (e *c09Env) prepare(method, pattern string) (target, body string) {
 		body = "{}"
 	}
 	switch {
+	case pattern == "/api/v1/access/:token" && method == "DELETE" && e.k.empty:
+		target = "/api/v1/access/" + c10Unknown("emptyD")
 	case pattern == "/api/v1/access/:token" && method == "DELETE":
 		if e.D == "" || e.fs.TableDigest("tokens") != e.dTokens {
 			if t, err := e.fs.Services.Tokens.GenerateToken(); err == nil && t != nil {
@@ -280,7 +299,7 @@ func (e *c09Env) subst(t string) string {
 // c09Derivations: values DERIVED from a valid credential (an issued token U, the admin token A) - none of them is
 // a credential: digests and encodings of it, case changes, reversal, neighbours, the row's other identifiers.
 var c09Derivations = []string{"sha256", "sha1", "md5", "sha256up", "b64", "b64url", "hex", "upper", "lower", "rev",
-	"nul", "nl", "pre", "suf", "dbl", "rowid", "quoted", "sha256sha256"}
+	"nul", "nl", "pre", "suf", "dbl", "rowid", "quoted", "sha256sha256", "rawnul", "rawnulx"}
 
 func (e *c09Env) derive(fn, which string) string {
 	v := e.U
@@ -322,6 +341,10 @@ func (e *c09Env) derive(fn, which string) string {
 		return string(b)
 	case "nul":
 		return v + "%00"
+	case "rawnul":
+		return v + "\x00"
+	case "rawnulx":
+		return v + "\x00x"
 	case "nl":
 		return v + "%0A"
 	case "pre":
@@ -446,6 +469,15 @@ func (e *c09Env) open(k c09Cfg, dir string) error {
 		}
 		return t.Token
 	}
+	if k.empty {
+		// nothing is issued in this configuration: $U and $R are values that were never issued
+		e.U, e.R = c10Unknown("emptyU"), c10Unknown("emptyR")
+		e.D, e.dTokens = "", ""
+		if n := e.fs.TableDigest("tokens"); !strings.HasPrefix(n, "0:") {
+			fail("tokens-table-not-empty-at-start:%s", n)
+		}
+		return nil
+	}
 	e.U = mk("U")
 	e.R = mk("R")
 	// the revoked credential is a token that was issued, USED successfully (on two API routes and on the
@@ -496,6 +528,24 @@ func (e *c09Env) digests() [3]string {
 // (GET /api/v1/access) of the token e.k.over is held inside the token repository; the observable then ends with
 // " bg=pass" / " bg=401:<code>", the answer of that held request.
 func (e *c09Env) request(method, pattern, hdr, query string) (obs string) {
+	if method == "WSCHK" {
+		// the token check of the websocket connect handler (websocket_server.go OnConnecting) for the token of "Bearer <token>"
+		defer func() {
+			if r := recover(); r != nil {
+				obs = fmt.Sprintf("PANIC %v", r)
+			}
+		}()
+		v := e.subst(strings.TrimPrefix(hdr, "="))
+		if !strings.HasPrefix(v, "Bearer ") {
+			return "HARNESS-ERROR WSCHK needs a Bearer template"
+		}
+		if e.k.auth {
+			if _, err := e.fs.Services.Tokens.GetToken(strings.TrimPrefix(v, "Bearer ")); err != nil {
+				return "ws:no"
+			}
+		}
+		return "ws:ok"
+	}
 	if e.k.over == "" {
 		return e.requestPlain(method, pattern, hdr, query)
 	}
@@ -741,6 +791,9 @@ func c09ParseInput(in string) (k c09Cfg, r c09Route, hdr string, err error) {
 	if strings.HasPrefix(cf, "f") {
 		k.fail, cf = true, cf[1:]
 	}
+	if strings.HasPrefix(cf, "e") {
+		k.empty, cf = true, cf[1:]
+	}
 	if strings.HasPrefix(cf, "~") && (len(cf) == 2 || (len(cf) == 3 && cf[1] == 's')) {
 		k.over, cf = cf[1:], ""
 	}
@@ -840,6 +893,14 @@ func runC09(c *Ctx) error {
 			return r.Path == "/api/v1/access" || r.Path == "/api/v1/access/:token" || r.Path == "/api/v1/chain/tip/longest" || r.Path == "/api/v1/webhook"
 		}
 		switch {
+		case k.empty:
+			routes = nil
+			for _, r := range e.routes {
+				if strings.HasPrefix(r.Path, "/api/v1") {
+					routes = append(routes, r)
+				}
+			}
+			creds = append([]c09Cred{{"-", "none"}, {"=Bearer $X", "unknown"}, {"=Bearer $U", "unknown"}, {"=Bearer ${sha256:U}", "derived"}}, c09SQLMeta...)
 		case k.over != "":
 			// ordinary routes (one of them state-changing) and the two admin routes
 			routes = nil
@@ -901,6 +962,29 @@ func runC09(c *Ctx) error {
 					sb.WriteString(c09Pieces[c.Rng.Intn(len(c09Pieces))])
 				}
 				one(rep[c.Rng.Intn(len(rep))], "="+sb.String(), "random", "")
+			}
+		}
+		if k.auth && k.over == "" && k.admin == "" {
+			// SQL meta characters as credential: on every API route (also while the token store fails / is empty),
+			// and on the websocket connect check
+			if ks := k.String(); ks == "100" || ks == "111" || ks == "100f" || c.Thorough() && !k.empty {
+				for _, r := range e.routes {
+					if !strings.HasPrefix(r.Path, "/api/v1") || c09Slow(r) {
+						continue
+					}
+					for _, cr := range c09SQLMeta {
+						one(r, cr.hdr, cr.class, "")
+					}
+				}
+			}
+			if !k.fail && !k.met && !k.prof {
+				ws := c09Route{"WSCHK", "/connection/websocket"}
+				for _, cr := range c09SQLMeta {
+					one(ws, cr.hdr, cr.class, "")
+				}
+				for _, h := range []string{"=Bearer $U", "=Bearer $X", "=Bearer $R", "=Bearer $A", "=Bearer ${sha256:U}", "=Bearer ${rawnulx:A}", "=Bearer ${upper:U}"} {
+					one(ws, h, "ws-check", "")
+				}
 			}
 		}
 		if k.auth && k.plain() && !k.fail {
